@@ -140,4 +140,8 @@ def pyEnc (m : List Byte) : List Byte :=
   let st := m.foldl pyStep ([1], 1)
   st.1.set (st.1.length - st.2) (UInt8.ofNat st.2) ++ [0]
 
+/-- `mpt.py:encode_command`: raises (`none`) on an inline zero byte, else appends the delimiter -/
+def pyCmd (m : List Byte) : Option (List Byte) :=
+  if (0 : Byte) ∈ m then none else some (m ++ [0])
+
 end Mpt.Cobs
